@@ -9,7 +9,7 @@ register("C05",
                    "GtModel.C05.mkEdit_refines_L2", "GtModel.C05.history_independent_L2",
                    "GtModel.C05.observations_contain_L2_cost", "GtModel.C05.no_internal_error_docs",
                    "GtModel.C05.history_independent_docs"],
-         streams=["history", "script", "render"],
+         streams=["history", "script", "render", "cli"],
          assumptions=["oracles as in C04 (every make_distinct oracle, admissible solver answers)",
                       "ONE FIXED SOLVER ANSWER FOR ALL HISTORIES: history_independent_docs / history_independent(_L2) use the same "
                       "orc.assign in `run q1 ... ops`, `finish q1` and `finish q2`.  In the code scipy is handed the edges' "
